@@ -6,6 +6,13 @@ import os
 HERE = os.path.dirname(os.path.dirname(os.path.abspath(__file__)))
 
 CHECKS = {
+    'C01': dict(level='proof', technique='call-graph reachability + path-sensitive abstract interpretation of MIR (panic-site discharge), CFG progress rule for loops, SCC recursion check',
+                text='Proof over all inputs of the structural obligations that make the calls total: every panic-capable site reachable from a derived '
+                     'text-accepting or likely-subtags entry point is shown unreachable on every abstract path (bounds by byte-string shape, index from binary '
+                     'search on the same table/vector, unwrap by table data), every loop cycle consumes from a finite iterator created outside it, the call graph is acyclic, '
+                     'every external callee has a totality summary, no Display impl constructs fmt::Error. Configurations K0 and likelysubtags.',
+                note='Trusted: totality of std/tinystr functions as classified in sa/models.py; allocation failure out of scope; caller-supplied AsRef/Iterator impls are total and finite.',
+                design='4.1'),
     'C15': dict(level='proof', technique='abstract interpretation of validator MIR over an exact byte-string shape domain (custom rustc_private driver + Python engines)',
                 text='Proof over all byte strings: for each of Language/Script/Region/Variant::from_bytes (and FromStr, TryFrom) the union of abstract '
                      'states at accepting returns equals the UTS #35 production (both inclusions), the payload is the input under the specified case transform, '
